@@ -421,6 +421,13 @@ pub fn gen(r: &mut Rng, thorough: bool) -> Vec<(String, String)> {
     // long mixed histories with interleaved queries and a shared (stale) workspace
     let nm = if thorough { 60 } else { 24 };
     for it in 0..nm { v.push(gen_mix(r, thorough, it)); }
+    // the code's own validator after every operation, and the accessors at the end, of long mixed histories
+    let nl = if thorough { 12 } else { 4 };
+    for it in 0..nl {
+        let nops = if thorough { 200 + r.below(100) as usize } else { 50 + r.below(40) as usize };
+        let (h, _, _) = long_mixed_history(r, nops, it % 2 == 0);
+        v.push(((if it % 2 == 0 { "topo" } else { "acc" }).to_string(), h.args()));
+    }
     // rebalance with pending updates (structure only)
     let np = if thorough { 200 } else { 40 };
     for it in 0..np { v.push(pending_rebalance_history(r, if thorough { 150 } else { 50 }, it % 2 == 0)); }
